@@ -8,7 +8,7 @@ __call__ starts every call with a fresh call id AND an empty look-ahead queue (t
 import z3
 
 from pyvc import ops
-from pyvc.contracts import Contract, Loop
+from pyvc.contracts import Contract, Loop, SourceModule
 from pyvc.interp import BUILTIN_EXC, PyRaise
 from pyvc.pack import Pack
 from pyvc.values import (
@@ -314,13 +314,18 @@ def build():
 
     def eval_expr(interp, args, kwargs):
         interp.ctx.events.append(("eval_expr", args[0]))
+        if interp.ctx.choose(2, "pre_dispatch-expression-invalid") == 1:
+            interp.ctx.ghost["BAD_EXPR"] = True
+            interp.raise_("ValueError")  # e.g. pre_dispatch='2*njobs': not a valid or supported arithmetic expression
         return OneOf(INT, REAL).fresh(interp.ctx, "amount")
 
     p.models["Str.replace"] = lambda i, r, a, k: STR.fresh(i.ctx, "expr")
     cglob = {"eval_expr": lambda interp: _Fn(eval_expr), "LokyBackend": ClassRef("LokyBackend")}
+    p.spec_funcs["bad_expr"] = lambda interp: bool(interp.ctx.ghost.get("BAD_EXPR"))
     p.spec_funcs["of"] = lambda interp, o: o.attrs.get("of")
     p.spec_funcs["limited_to"] = lambda interp, o: o.attrs.get("n")
     p.spec_funcs["is_tag"] = lambda interp, o, tag: isinstance(o, Opaque) and o.tag == tag
+    LEFTOVER = "implies(n_events('_initialize_backend') + n_events('backend.start_call') > 0, n_events('_terminate_and_reset') == 1 and self._calling is False)"
     p.add(Contract(
         PAR, "Parallel.__call__", props=["C04", "C09", "C16", "C01", "C15"], ghost=dict(NJOBS=INT), globals=cglob, inline={"_call"},
         params=dict(self=parallel(_running=BOOL, pre_dispatch=OneOf("all", "2 * n_jobs", INT), _id=STR, _original_iterator="unset", _pre_dispatch_amount="unset",
@@ -341,9 +346,14 @@ def build():
         },
         # C04 / C16: whatever makes the call fail before an output generator has taken over, the object stays usable - and a call rejected
         # because another run is active leaves that run's flag alone
-        exsures={"RuntimeError": {"no_worker_or_overlapping_call": "NJOBS == 0 or other_run_active()", "running_flag": "self._running == other_run_active()"},
-                 "ValueError": {"negative_pre_dispatch": "NJOBS != 1 and self.pre_dispatch != 'all'", "object_stays_usable": "self._running is False"},
-                 "TypeError": {"object_stays_usable": "self._running is False"}},
+        # ... "with nothing left over from the failed call": workers that this call started (a backend initialised for it, start_call of a
+        # backend) are released by the clean-up of the output generator - when the call fails before that generator exists (input not
+        # iterable, invalid pre_dispatch expression, no worker) nothing else will ever release them
+        exsures={"RuntimeError": {"no_worker_or_overlapping_call": "NJOBS == 0 or other_run_active()", "running_flag": "self._running == other_run_active()",
+                                  "what_the_call_started_is_released": LEFTOVER},
+                 "ValueError": {"invalid_pre_dispatch_expression": "NJOBS != 1 and self.pre_dispatch != 'all' and bad_expr()", "object_stays_usable": "self._running is False",
+                                "what_the_call_started_is_released": LEFTOVER},
+                 "TypeError": {"object_stays_usable": "self._running is False", "what_the_call_started_is_released": LEFTOVER}},
     ))
     # ------------------------------------------------------------------ _get_sequential_output (n_jobs == 1: calling thread, in order, once each)
     def seq_tasks(interp):
@@ -447,4 +457,37 @@ def build():
             ensures={"only_reports": "self.n_completed_tasks == old(self.n_completed_tasks) and self.n_dispatched_tasks == old(self.n_dispatched_tasks)"},
             # no exsures: whatever the state of the run, reporting progress raises nothing
         ))
+    # ---- structural (C04, C16): the tear-down paths (_terminate_and_reset, __exit__, _abort) run after ANY failure of a call - also one that
+    # happens before the parallel set-up of Parallel._call has assigned its run-time attributes.  Every attribute of self they read must
+    # exist on an object that only went through __init__ (and _reset_run_tracking, the first thing every call does), or the clean-up of an
+    # early failure raises AttributeError instead of the failure itself.
+    def teardown_reads_only_what_every_object_has(pack):
+        import ast as _ast
+        mod = SourceModule.get(PAR)
+        cls = mod.classes.get("Parallel")
+        if cls is None:
+            return [("Parallel/found", None, "anchor lost")]
+        meth = {n.name: n for n in cls.body if isinstance(n, _ast.FunctionDef)}
+        assigned = set()
+        for name in ("__init__", "_reset_run_tracking"):
+            for n in _ast.walk(meth[name]) if name in meth else ():
+                if isinstance(n, _ast.Attribute) and isinstance(n.ctx, _ast.Store) and _ast.unparse(n.value) == "self":
+                    assigned.add(n.attr)
+        known = assigned | set(meth) | {n.targets[0].id for n in cls.body if isinstance(n, _ast.Assign) and isinstance(n.targets[0], _ast.Name)}
+        out = []
+        for name in ("_terminate_and_reset", "__exit__"):
+            if name not in meth:
+                out.append(("Parallel.%s/found" % name, None, "anchor lost"))
+                continue
+            reads = sorted({n.attr for n in _ast.walk(meth[name]) if isinstance(n, _ast.Attribute) and isinstance(n.ctx, _ast.Load) and _ast.unparse(n.value) == "self"})
+            also = set()
+            if name == "__exit__" and "__enter__" in meth:  # __exit__ only runs after __enter__
+                also = {n.attr for n in _ast.walk(meth["__enter__"]) if isinstance(n, _ast.Attribute) and isinstance(n.ctx, _ast.Store) and _ast.unparse(n.value) == "self"}
+            missing = [a for a in reads if a not in known and a not in also]
+            out.append(("Parallel.%s/reads-only-attributes-every-object-has" % name, not missing,
+                        "attributes read by the tear-down but assigned neither by __init__ nor by _reset_run_tracking: %r" % (missing,)))
+        return out
+
+    teardown_reads_only_what_every_object_has.props = ["C04", "C16"]
+    p.structural = list(getattr(p, "structural", []) or []) + [teardown_reads_only_what_every_object_has]
     return p
